@@ -400,6 +400,8 @@ def _pure(e):
 def _trivial(e):
     if isinstance(e, (ast.Name, ast.Constant)):
         return True
+    if isinstance(e, ast.Call) and isinstance(e.func, ast.Name) and e.func.id == "type" and len(e.args) == 1 and isinstance(e.args[0], ast.Name) and not e.keywords:
+        return True
     if isinstance(e, ast.Attribute):
         return _trivial(e.value)
     return False
@@ -573,8 +575,8 @@ def inline_temps(fn):
                     changed = True
                     break
                 # index arithmetic (a number computed from numbers that are bound exactly once): every use may spell it out
-                if loads and 1 < len(loads) <= 6 and len(ast.unparse(e)) <= 60 and _index_arith(e) and _after(fn, st, loads, allow_loop=True) \
-                        and _names_fixed(sc, e) and _same_loop(fn, st, loads):
+                if loads and len(loads) > 1 and len(ast.unparse(e)) <= 200 and _index_arith(e) and _after(fn, st, loads, allow_loop=True) \
+                        and _names_fixed(sc, e) and _same_loop(fn, st, loads) and _elements_stable(fn, e):
                     for b2 in _blocks(fn):
                         for k, s2 in enumerate(b2):
                             if s2 is not st:
@@ -653,7 +655,12 @@ def _index_arith(e):
         return isinstance(e.op, ast.USub) and _index_arith(e.operand)
     if isinstance(e, ast.Subscript):
         # the extent of an array along an axis does not change while the name stays bound to it
-        return isinstance(e.value, ast.Attribute) and e.value.attr == "shape" and isinstance(e.value.value, ast.Name) and isinstance(e.slice, ast.Constant)
+        if isinstance(e.value, ast.Attribute) and e.value.attr == "shape" and isinstance(e.value.value, ast.Name) and isinstance(e.slice, ast.Constant):
+            return True
+        # shape[k] of a shape-like name (the caller checks that no element of it is ever written)
+        return isinstance(e.value, ast.Name) and isinstance(e.slice, ast.Constant) and isinstance(e.slice.value, int)
+    if isinstance(e, ast.Call) and isinstance(e.func, ast.Name) and e.func.id == "slice" and not e.keywords:
+        return all(_index_arith(a_) or (isinstance(a_, ast.Constant) and a_.value is None) for a_ in e.args)
     return False
 
 
@@ -1224,6 +1231,65 @@ def sort_pure_runs(fn):
 
 
 # ------------------------------------------------------------------ driver
+class _Spellings(ast.NodeTransformer):
+    """equivalent spellings (the same assumptions as menpolint.astutil.norm): a.dot(b) == np.dot(a, b) for arrays; a list or
+    a tuple display handed to a numpy function; self.__class__ == type(self); x[slice(a, b)] == x[a:b]"""
+
+    def visit_Call(self, n):
+        self.generic_visit(n)
+        f = n.func
+        if isinstance(f, ast.Attribute) and f.attr == "dot" and len(n.args) == 1 and not n.keywords and not (isinstance(f.value, ast.Name) and f.value.id in ("np", "numpy")):
+            return ast.Call(func=ast.Attribute(value=ast.Name(id="np", ctx=ast.Load()), attr="dot", ctx=ast.Load()), args=[f.value, n.args[0]], keywords=[])
+        d = dotted(f) or ""
+        if d.split(".")[0] in ("np", "numpy"):
+            n.args = [ast.Tuple(elts=a.elts, ctx=ast.Load()) if isinstance(a, ast.List) else a for a in n.args]
+            for k in n.keywords:
+                if isinstance(k.value, ast.List) and k.arg in ("shape", "newshape", "axes", "axis"):
+                    k.value = ast.Tuple(elts=k.value.elts, ctx=ast.Load())
+        return n
+
+    def visit_Attribute(self, n):
+        self.generic_visit(n)
+        if n.attr == "__class__" and isinstance(n.value, ast.Name) and isinstance(n.ctx, ast.Load):
+            return ast.Call(func=ast.Name(id="type", ctx=ast.Load()), args=[n.value], keywords=[])
+        return n
+
+    def visit_Subscript(self, n):
+        self.generic_visit(n)
+
+        def unslice(x):
+            if isinstance(x, ast.Call) and isinstance(x.func, ast.Name) and x.func.id == "slice" and not x.keywords and 1 <= len(x.args) <= 3:
+                a_ = list(x.args)
+                if len(a_) == 1:
+                    return ast.Slice(lower=None, upper=a_[0], step=None)
+                return ast.Slice(lower=a_[0], upper=a_[1], step=a_[2] if len(a_) == 3 else None)
+            return x
+        if isinstance(n.slice, ast.Tuple):
+            n.slice = ast.Tuple(elts=[unslice(x) for x in n.slice.elts], ctx=ast.Load())
+        else:
+            n.slice = unslice(n.slice)
+        return n
+
+    def visit_Assert(self, n):
+        return n
+
+
+class _SortKeywords(ast.NodeTransformer):
+    """keyword arguments whose values are plain names / constants / attribute reads can be written in any order"""
+
+    def visit_Call(self, n):
+        self.generic_visit(n)
+        if n.keywords and all(k.arg is not None and _trivial(k.value) for k in n.keywords):
+            n.keywords = sorted(n.keywords, key=lambda k: k.arg)
+        return n
+
+
+def drop_asserts(fn):
+    """assert statements are not behaviour (they vanish under -O); one whose test could have an effect is kept"""
+    for body in _blocks(fn):
+        body[:] = [s_ for s_ in body if not (isinstance(s_, ast.Assert) and _pure(s_.test))] or [ast.Pass()]
+
+
 class _BindKeywords(ast.NodeTransformer):
     """f(a, b, k=c) -> f(p1=a, p2=b, k=c) for callees whose signature is known: argument order (hence evaluation order) is
     kept, only the way each argument is bound is spelled out"""
@@ -1242,8 +1308,10 @@ class _BindKeywords(ast.NodeTransformer):
                 and args and isinstance(args[0], ast.Name) and args[0].id in ("self", "cls"):
             ps = self.sigs[(f.value.id, f.attr)]
             skip = 1
-        if ps is None or not args[skip:]:
+        if ps is None:
             return n
+        if not args[skip:]:
+            return self._finish(n, f)
         rest = args[skip:]
         if any(isinstance(a, ast.Starred) for a in rest) or any(k.arg is None for k in n.keywords) or len(rest) > len(ps):
             return n
@@ -1252,6 +1320,17 @@ class _BindKeywords(ast.NodeTransformer):
             return n
         n.keywords = [ast.keyword(arg=p_, value=a) for p_, a in zip(ps, rest)] + n.keywords
         n.args = args[:skip]
+        return self._finish(n, f)
+
+    def _finish(self, n, f):
+        # an argument that spells out the callee's own constant default changes nothing
+        dk = None
+        if isinstance(f, ast.Name):
+            dk = self.sigs.get(("#defaults", f.id))
+        elif isinstance(f, ast.Attribute) and isinstance(f.value, ast.Name):
+            dk = self.sigs.get(("#defaults", f.value.id, f.attr))
+        if dk:
+            n.keywords = [k for k in n.keywords if not (k.arg in dk and isinstance(k.value, ast.Constant) and repr(k.value.value) == dk[k.arg])]
         return n
 
 
@@ -1265,6 +1344,9 @@ def canonical(fn_node, helpers=None, method_helpers=None, sigs=None):
         fn = _BindKeywords(sigs, set(sc0.params) | (set(sc0.locals()) - sc0.imports)).visit(fn)
         ast.fix_missing_locations(fn)
     hoist_imports(fn)
+    drop_asserts(fn)
+    fn = _Spellings().visit(fn)
+    ast.fix_missing_locations(fn)
     fn.body = canon_block(fn.body, True) or [ast.Pass()]
     ast.fix_missing_locations(fn)
     fn = _IfExpTests().visit(fn)
@@ -1275,6 +1357,8 @@ def canonical(fn_node, helpers=None, method_helpers=None, sigs=None):
     if loops_to_comprehensions(fn):
         fn = inline_temps(clone(fn))
     fn = sort_pure_runs(clone(fn))
+    fn = _SortKeywords().visit(_Spellings().visit(fn))
+    ast.fix_missing_locations(fn)
     fn = clone(fn)
     fn = alpha(fn)
     ast.fix_missing_locations(fn)
